@@ -31,6 +31,14 @@ def _snapshot(root):
     return out
 
 
+def _msgs(err):
+    """messages of an error value; plug-ins may reject with any payload"""
+    m = getattr(err, "msg", None)
+    if isinstance(m, list):
+        return [str(x[0]) if isinstance(x, tuple) else str(x) for x in m]
+    return [repr(err)]
+
+
 def _parse(text):
     from fcp.parser import get_fcp_from_string
     from fcp.error import Logger
@@ -52,15 +60,27 @@ def w_generate(case):
 
     name = case["generator"]
     out = {}
+    if name == "vtest":
+        # the harness' own plug-in: its check rejects (or not) by construction, with any payload an `Err` can carry
+        import sys
+        pd = os.path.join(os.path.dirname(os.path.abspath(__file__)), "plugins")
+        if pd not in sys.path:
+            sys.path.insert(0, pd)
+            importlib.invalidate_caches()
+        importlib.import_module("fcp_vtest").CONFIG.update(case["vtest"])
     # 1. the verifier's own verdict, obtained separately
     fcp = _parse(case["text"])
     v = make_general_verifier()
     importlib.import_module("fcp_" + name).Generator().register_checks(v)
     try:
         r = v.verify(fcp)
-        out["verdict"] = {"ok": True} if r.is_ok() else {"ok": False, "msgs": [m for m, _, _ in r.err().msg]}
+        out["verdict"] = {"ok": True} if r.is_ok() else {"ok": False, "msgs": _msgs(r.err())}
     except Exception as e:
         out["verdict"] = {"exc": type(e).__name__, "msg": str(e)[:100]}
+    if name == "vtest":
+        # ground truth by construction (the schema passes the general checks and has a node of the category)
+        out["verdict_impl"] = out["verdict"]
+        out["verdict"] = {"ok": not case["vtest"]["reject"], "msgs": ["vtest: " + case["vtest"]["payload"]]}
     # 2. the plug-in's file list, obtained separately in a scratch directory
     scratch = tempfile.mkdtemp(prefix="fcpgen_s_")
     try:
@@ -109,7 +129,7 @@ def w_generate(case):
             else:
                 with contextlib.redirect_stdout(buf):
                     r = GeneratorManager(make_general_verifier()).generate(name, None, None, _parse(case["text"]), odir)
-                out["result"] = {"ok": True} if r.is_ok() else {"ok": False, "msgs": [m for m, _, _ in r.err().msg]}
+                out["result"] = {"ok": True} if r.is_ok() else {"ok": False, "msgs": _msgs(r.err())}
         except BaseException as e:
             if isinstance(e, KeyboardInterrupt):
                 raise
@@ -208,7 +228,16 @@ def run_c10(prop, tier):
                 poison = decls_poison
         else:
             g = rng.choice(["dbc", "can_c", "cpp", "nop", "dbc", "can_c"])
-        cases.append({"text": text, "generator": g, "pre": rng.choice(PRE), "poison": poison, "via_cli": rng.random() < 0.5})
+        c = {"text": text, "generator": g, "pre": rng.choice(PRE), "poison": poison, "via_cli": rng.random() < 0.5}
+        if prop == "C10" and rng.random() < 0.2:
+            # a plug-in check rejecting with an arbitrary payload, in any category and position
+            c.update({"text": 'version: "3"\n\n' + "\n".join(GOOD) + "\n", "poison": None, "generator": "vtest", "via_cli": False,
+                      "vtest": {"category": rng.choice(["struct", "enum", "impl", "type", "device"]),
+                                "reject": rng.random() < 0.7,
+                                "payload": rng.choice(["fcp-error", "empty-str", "zero", "none", "empty-list", "false", "text", "seven"]),
+                                "position": rng.choice(["only", "after-pass", "before-pass"])}})
+            c["poison"] = ("vtest:" + c["vtest"]["payload"]) if c["vtest"]["reject"] else None
+        cases.append(c)
     ires = run_cases("harness.genmgr", "w_generate", cases, timeout_s=120)
     lcases = []
     idx = []
